@@ -1,4 +1,4 @@
-use super::swift_utils::{parse_date_yymmdd, parse_swift_digits};
+use super::swift_utils::{ensure_ascii, parse_date_yymmdd, parse_swift_digits};
 use crate::errors::ParseError;
 use crate::traits::SwiftField;
 use chrono::{Datelike, NaiveDate};
@@ -37,6 +37,7 @@ impl SwiftField for Field11R {
     where
         Self: Sized,
     {
+        ensure_ascii(input, "Field 11")?;
         let mut remaining = input;
 
         // Parse message type (3!n)
@@ -162,6 +163,7 @@ impl SwiftField for Field11S {
     where
         Self: Sized,
     {
+        ensure_ascii(input, "Field 11")?;
         let mut remaining = input;
 
         // Parse message type (3!n)
@@ -350,6 +352,7 @@ impl SwiftField for Field11 {
     where
         Self: Sized,
     {
+        ensure_ascii(input, "Field 11")?;
         // Field 11 requires at least 9 characters (3 for MT + 6 for date)
         if input.len() < 9 {
             return Err(ParseError::InvalidFormat {
